@@ -247,3 +247,11 @@ def pkcs5_unpad(m):
     if n < 1 or n > 8 or n > len(m) or m[-n:] != bytes([n]) * n:
         raise AlgoError('bad padding')
     return m[:-n]
+
+
+EC_ORDERS = {
+    'p256': 0xFFFFFFFF00000000FFFFFFFFFFFFFFFFBCE6FAADA7179E84F3B9CAC2FC632551,
+    'p384': 0xFFFFFFFFFFFFFFFFFFFFFFFFFFFFFFFFFFFFFFFFFFFFFFFFC7634D81F4372DDF581A0DB248B0A77AECEC196ACCC52973,
+    'p521': int('01' + 'F' * 65 + 'A' + '51868783BF2F966B7FCC0148F709A5D03BB5C9B8899C47AEBB6FB71E91386409', 16),
+    'secp256k1': 0xFFFFFFFFFFFFFFFFFFFFFFFFFFFFFFFEBAAEDCE6AF48A03BBFD25E8CD0364141,
+}
